@@ -74,6 +74,11 @@ def lookupVar (env : Nat) (name : String) : EvalM N (Option (Val N)) := do
     else if name == "millis" || name == "now" then throw (.unsupported "clock")
     else return none
 
+def liftE {α : Type} (x : Except Err α) : EvalM N α :=
+  match x with
+  | .ok a => pure a
+  | .error e => throw e
+
 section
 variable [NumSys N]
 
@@ -455,20 +460,22 @@ def evalObject (r : Rec N) (pairs : List (Node N × Node N)) (data : Option (Val
 inductive TermKind | unknown | number | string
   deriving DecidableEq
 
-/-- eval.go `buildSortInfo`: key tuple of one item, with the per-term type bookkeeping. -/
+/-- eval.go `buildSortInfo`, the per-term type bookkeeping for one key: numbers and strings
+    only, and never both within one term. -/
+def sortKeyCheck (kind : TermKind) (v : Option (Val N)) : Except Err (Option (Val N) × TermKind) :=
+  match v with
+  | none => .ok (none, kind)
+  | some (.num x) => if kind == .string then .error (.eval .sortMismatch) else .ok (some (.num x), .number)
+  | some (.str s) => if kind == .number then .error (.eval .sortMismatch) else .ok (some (.str s), .string)
+  | some _ => .error (.eval .nonSortable)
+
+/-- eval.go `buildSortInfo`: key tuple of one item. -/
 def sortKeysFor (r : Rec N) (env : Nat) (item : Val N) :
     List (SortDir × Node N) → List TermKind → EvalM N (List (Option (Val N)) × List TermKind)
   | [], _ => pure ([], [])
   | (_, e) :: ts, kinds => do
-    let kind := kinds.headD .unknown
     let v ← r.ev e (some item) env
-    let (v', kind') ← (match v with
-      | none => pure (none, kind)
-      | some (.num x) =>
-        if kind == .string then throw (Err.eval .sortMismatch) else pure (some (Val.num x), TermKind.number)
-      | some (.str s) =>
-        if kind == .number then throw (Err.eval .sortMismatch) else pure (some (Val.str s), TermKind.string)
-      | some _ => throw (Err.eval .nonSortable) : EvalM N (Option (Val N) × TermKind))
+    let (v', kind') ← liftE (sortKeyCheck (kinds.headD .unknown) v)
     let (vs, ks) ← sortKeysFor r env item ts kinds.tail
     pure (v' :: vs, kind' :: ks)
 
